@@ -128,6 +128,17 @@ class Conv:
                     if isinstance(getattr(M, n_, None), type) and issubclass(getattr(M, n_), M.APIModelBase)]
             if subs:
                 return True, (("models", subs[-1], list(wire_val)) if fd.is_repeated else ("model", subs[-1], wire_val))
+        if fd.is_repeated and fd.type != _FD.TYPE_MESSAGE:
+            # ... and for a repeated scalar field the annotation says whether the elements are members of an enum the client exposes or plain
+            # values: the list carries the wire list's values whatever helper builds it
+            ann = f.type if isinstance(f.type, str) else getattr(f.type, "__name__", "")
+            enums = [getattr(M, n_) for n_ in _re.findall(r"[A-Za-z_]\w*", ann)
+                     if isinstance(getattr(M, n_, None), type) and issubclass(getattr(M, n_), M.APIIntEnum)]
+            if enums:
+                owner_ = enums[-1]
+                declared_ = {v.number for v in fd.enum_type.values} if fd.enum_type is not None else {int(x) for x in owner_}
+                return True, [owner_(x) if x in {int(y) for y in owner_} else ("enum-declared-but-dropped", x) for x in wire_val if x in declared_]
+            return True, ("list-eq", list(wire_val))
         self.unmodelled.add(f"{model_cls.__name__}.{f.name}: {fname or conv!r}")
         return False, None
 
